@@ -20,7 +20,7 @@ METHODS = ["GET", "PUT", "POST", "DELETE", "HEAD", "PATCH", "OPTIONS", "CHANNEL"
 PATHS = ["lit", "lit2", "var1", "var2", "trail", "wild"]
 VERSIONS = ["none", "all", "until_lit", "from_lit", "fromuntil_lit", "single", "from_ident", "until_ident",
             "fromuntil_mixed", "fromuntil_idents"]
-TAGS = [[], ["alpha"], ["alpha", "beta"], ["beta", "alpha"]]
+TAGS = [[], ["alpha"], ["alpha", "beta"], ["beta", "alpha"], None]  # None: a tag unique to the declaration
 OPID = [False, True]
 CT = ["none", "application/json", "application/x-www-form-urlencoded", "multipart/form-data"]
 MAX = ["none", "1024", "MAX_2048", "4 * 1024"]
@@ -30,7 +30,7 @@ DOCS = list(range(11))
 EXTRACT = ["none", "query", "typed", "query+typed", "untyped", "stream", "multipart", "raw"]
 RET = ["ok", "created", "updated", "accepted", "raw", "deleted"]
 
-PARAMS = [("method", METHODS), ("path", PATHS), ("versions", VERSIONS), ("tags", list(range(4))), ("opid", OPID),
+PARAMS = [("method", METHODS), ("path", PATHS), ("versions", VERSIONS), ("tags", list(range(5))), ("opid", OPID),
           ("ct", CT), ("max", MAX), ("deprecated", FLAG), ("unpublished", FLAG), ("doc", DOCS),
           ("extract", EXTRACT), ("ret", RET)]
 
@@ -209,6 +209,8 @@ def build(i, r):
     if vsrc is not None:
         args.append(f"versions = {vsrc}")
     tags = TAGS[r["tags"]]
+    if tags is None:
+        tags = ["only%d" % i]
     if tags:
         args.append("tags = [" + ", ".join(rs(t) for t in tags) + "]")
     opid = f"custom_op_{i}" if r["opid"] else None
@@ -481,6 +483,25 @@ pub fn run(out: &mut Out, id: &mut u64) {
         let js = a_s.openapi("t", v.clone()).json().unwrap();
         *id += 1;
         out.line(&format!("pj {} {} => {} {}", id, p, (jf == ji) as u8, (ji == js) as u8));
+        // the document's top-level tag list against the whole table of declarations
+        *id += 1;
+        let tag_names = |j: &serde_json::Value| -> String {
+            let v: Vec<String> = j
+                .get("tags")
+                .and_then(|t| t.as_array())
+                .map(|a| a.iter().filter_map(|x| x.get("name").and_then(|n| n.as_str()).map(hs)).collect())
+                .unwrap_or_default();
+            if v.is_empty() { "-".to_string() } else { v.join(",") }
+        };
+        out.line(&format!(
+            "pt {} {} {} => {} | {} | {}",
+            id,
+            p,
+            decls.iter().map(|(d, _, _)| d.enc()).collect::<Vec<_>>().join(" | "),
+            tag_names(&jf),
+            tag_names(&ji),
+            tag_names(&js)
+        ));
         for (d, body, _) in &decls {
             *id += 1;
             out.line(&format!(
